@@ -161,6 +161,8 @@ def kf_match(kf, prop, v, sc):
         return False
     if kf.get('clause') and kf['clause'] != v['clause']:
         return False
+    if kf.get('clauses') and v['clause'] not in kf['clauses']:
+        return False
     if kf.get('sig') and not re.search(kf['sig'], v.get('sig', '')):
         return False
     pred = kf.get('predicate')
@@ -322,7 +324,7 @@ def run_check(prop, tier, seed, n=None, jobs=None, budget_s=None, verbose=False)
 
     # 1. replays of open known findings of this property (always executed)
     for kf in known:
-        if kf.get('status') == 'open' and prop == kf.get('property') and kf.get('replay'):
+        if kf.get('status') == 'open' and prop in kf.get('properties', [kf.get('property')]) and kf.get('replay'):
             rp = os.path.join(VERIF, kf['replay'])
             try:
                 with open(rp) as f:
